@@ -33,6 +33,21 @@ def from_json_funcs(prog: Program) -> List[FuncInfo]:
     return out
 
 
+def model_program(prog: Program) -> Program:
+    """The program with private same-module helpers of the message model's (de)serialisers inlined into them, so that a
+    shared prologue moved into a helper (`_parse_envelope(json_data, cls)`) is still seen as part of from_json."""
+    from ..inline import inlined_program
+    callers = []
+    for q in (V20, EXC):
+        for ci in prog.classes.values():
+            if ci.module.name == q:
+                for name in ('from_json', 'to_json'):
+                    m = ci.methods.get(name)
+                    if m is not None and not _is_abstract(m):
+                        callers.append(m.qualname)
+    return inlined_program(prog, callers)
+
+
 def json_param(f: FuncInfo) -> str:
     ps = f.params
     if len(ps) < 2:
@@ -69,6 +84,7 @@ def run(ck: Check, prog: Program) -> None:
                'batch append/extend.')
     ck.assume('the argument of from_json is a decoded JSON value (dict / list / str / int / float / bool / None)')
     ck.not_decided.append('nothing value-dependent beyond the admitted-type table: the path analysis covers the member alphabet product')
+    prog = model_program(prog)
     interp = Interp(prog)
     funcs = from_json_funcs(prog)
     ck.require('ESC-FROMJSON', 'from_json entry points', len(funcs), 5)
